@@ -370,6 +370,8 @@ def reject_sweep(ctx, L):
         ("ix^2+iy^2>4", dict(a=1., ix=1.5, iy=1.5)),
         ("a=0", dict(a=0.)), ("a=0,e", dict(a=0., e=0.5, f=1.0)), ("P=0", dict(P=0.)), ("a=0,pal", dict(a=0., h=0.1)),
         ("pal e>=1", dict(a=1., h=0.8, k=0.6)), ("pal e>1", dict(a=1., h=1.0, k=0.5)),
+        ("nan e", dict(a=1., e=float("nan"))), ("nan x", dict(x=float("nan"))), ("nan a", dict(a=float("nan"), P=1.)),
+        ("nan h", dict(a=1., h=float("nan"))), ("nan r", dict(a=1., r=float("nan"))),
     ]
     longs = ["f", "M", "E", "l", "theta", "T"]
     for i in range(6):
